@@ -321,9 +321,9 @@ def write_evidence(prop, tier, seed, level, m, wall, violations, extra):
         distinct_interleavings=len(m["inter"]),
         distinct_interleavings_measure="hash of the order of seam events projected on (actor, event type)",
         distinct_abstract_states=len(m["states"]),
-        fault_kinds=d.get("fault_kinds", []),
-        real_components=d.get("real_components", []),
-        stub_components=d.get("stub_components", []),
+        fault_kinds=d.get("fault_kinds") or [],
+        real_components=d.get("real_components") or [],
+        stub_components=d.get("stub_components") or [],
         known_findings_seen=m["known"],
         budget_cut=m["budget_cut"],
         worker_cpu_s=round(m["cpu_s"], 2),
@@ -335,9 +335,12 @@ def write_evidence(prop, tier, seed, level, m, wall, violations, extra):
     cov["exhaustive"] = False
     cov.update(extra or {})
     ev = dict(property_id=prop, tier=tier, seed=int(seed), level=level, coverage=cov,
-              assumptions=d.get("assumptions", []), wall_s=round(wall, 2), violations=violations)
-    os.makedirs(os.path.join(VERIF, "evidence"), exist_ok=True)
-    wjson(os.path.join(VERIF, "evidence", prop + ".json"), ev, indent=1)
+              assumptions=d.get("assumptions") or [], wall_s=round(wall, 2), violations=violations)
+    # evidence describes runs against /repo itself; runs against a scratch tree
+    # (canaries, seeded changes via VERIF_REPO) must not overwrite it
+    edir = os.path.join(VERIF, "evidence") if os.path.realpath(repo_path()) == "/repo" else os.path.join(VERIF, "out", "evidence-scratch")
+    os.makedirs(edir, exist_ok=True)
+    wjson(os.path.join(edir, prop + ".json"), ev, indent=1)
 
 
 def check_property(prop, tier, seed, workers, replay=None, budget_s=None, run_limit=None):
